@@ -157,15 +157,18 @@ def model():
             j = orm.Optional(orm.Json)
             arr = orm.Optional(orm.IntArray)
             n = orm.Optional(int)
+            vj = orm.Optional(orm.Json, volatile=True)              # volatile and non-optimistic attributes are tracked like any other
+            varr = orm.Optional(orm.IntArray, volatile=True)
+            nj = orm.Optional(orm.Json, optimistic=False)
         db.generate_mapping(create_tables=True)
         with orm.db_session:
-            D(j={'k': [1], 'd': {'e': {'f': [0]}}}, arr=[1, 2, 3], n=0)
+            D(j={'k': [1], 'd': {'e': {'f': [0]}}}, arr=[1, 2, 3], n=0, vj={'k': [1]}, varr=[1], nj={'k': [1]})
         _M = types.SimpleNamespace(db=db, D=D)
     return _M
 
 
 def _ac_configs(tier):
-    return [dict(status=s) for s in ('loaded', 'modified', 'created', 'inserted', 'updated', 'deleted')]
+    return [dict(status=s, attr=a) for s in ('loaded', 'modified', 'created', 'inserted', 'updated', 'deleted') for a in ('j', 'vj', 'varr', 'nj')]
 
 
 def _ac_case(cfg, values):
@@ -176,20 +179,20 @@ def _ac_case(cfg, values):
             with orm.db_session:
                 s = cfg['status']
                 if s in ('loaded', 'modified', 'updated', 'deleted'):
-                    o = M.D[1]; o.j
+                    o = M.D[1]; getattr(o, cfg['attr'])
                     if s == 'modified': o.n = 1
                     if s == 'updated': o.n = 2; orm.flush()
                     if s == 'deleted': o.delete()
                 else:
-                    o = M.D(j={'k': [1]}, n=5)
+                    o = M.D(j={'k': [1]}, n=5, vj={'k': [1]}, varr=[1], nj={'k': [1]})
                     if s == 'inserted': orm.flush()
                 cache = o._session_cache_
                 before = (o._status_, o._wbits_, o in cache.objects_to_save, list(cache.objects_to_save).count(o))
                 try:
-                    o._attr_changed_(M.D.j); res = 'ok'
+                    o._attr_changed_(getattr(M.D, cfg['attr'])); res = 'ok'
                 except core.OperationWithDeletedObjectError:
                     res = 'deleted-error'
-                after = (o._status_, o._wbits_, list(cache.objects_to_save).count(o), cache.modified, M.D._bits_[M.D.j])
+                after = (o._status_, o._wbits_, list(cache.objects_to_save).count(o), cache.modified, M.D._bits_[getattr(M.D, cfg['attr'])])
                 orm.rollback()
                 return before, res, after
         finally:
@@ -232,6 +235,12 @@ def _e2e_configs(tier):
         for op in E2E_OPS[kind]: out.append(dict(where=name, op=op, attr='j'))
     for op in E2E_OPS[list]:
         if 'nested' not in op and op != 'slice-assign': out.append(dict(where='array', op=op, attr='arr'))      # arrays hold scalars; slice assignment is rejected with TypeError
+    for op in ('append', '+=', 'clear'):
+        out.append(dict(where='array', op=op, attr='varr'))
+    for op in ('__setitem__', '|=', 'update'):
+        out.append(dict(where='depth1-dict', op=op, attr='vj')); out.append(dict(where='depth1-dict', op=op, attr='nj'))
+    for op in ('append', '+='):
+        out.append(dict(where='depth2-list', op=op, attr='vj'))
     return out
 
 
@@ -241,24 +250,26 @@ def _e2e_case(cfg, values):
     def call():
         try:
             with orm.db_session:
-                o = M.D(j={'k': [1, 5], 'd': {'e': {'f': [0, 3]}, 'x': 1}}, arr=[3, 1, 2], n=0)
+                doc = {'k': [1, 5], 'd': {'e': {'f': [0, 3]}, 'x': 1}}
+                o = M.D(j=doc, arr=[3, 1, 2], n=0, vj=copy.deepcopy(doc), varr=[3, 1, 2], nj=copy.deepcopy(doc))
                 orm.commit()
                 pk = o.id
             with orm.db_session:
                 o = M.D[pk]
-                if cfg['attr'] == 'j':
+                isjson = cfg['attr'] in ('j', 'vj', 'nj')
+                if isjson:
                     getter = dict((n, g) for n, g, k in _paths())[cfg['where']]
                     kind = dict((n, k) for n, g, k in _paths())[cfg['where']]
-                    target = getter(o.j)
+                    target = getter(getattr(o, cfg['attr']))
                 else:
-                    kind = list; target = o.arr
+                    kind = list; target = getattr(o, cfg['attr'])
                 status_after_read = o._status_
                 E2E_OPS[kind][cfg['op']](target)
-                expected = copy.deepcopy(o.j.get_untracked() if cfg['attr'] == 'j' else list(o.arr))
+                expected = copy.deepcopy(getattr(o, cfg['attr']).get_untracked() if isjson else list(getattr(o, cfg['attr'])))
                 status_after_change = o._status_
             with orm.db_session:
                 o = M.D[pk]
-                stored = o.j.get_untracked() if cfg['attr'] == 'j' else list(o.arr)
+                stored = getattr(o, cfg['attr']).get_untracked() if isjson else list(getattr(o, cfg['attr']))
                 o.delete()
             return status_after_read, status_after_change, expected, stored
         finally:
